@@ -135,8 +135,8 @@ def models(tier, seed):
                                                    M("quit", "own", (), "void")]}],
          "objects": [], "groups": [("Grp", ["Base", "Extra"], "Box", "Arc"), ("Grp", ["Base", "Extra"], "Mut", "Arc")]},
         {"id": "clash_and_prefix", "prefix": "api",
-         "traits": [{"name": "Aa", "methods": [M("run", "ref", ("u32",), "u32"), M("only", "ref", (), "u32")]},
-                    {"name": "Bb", "methods": [M("run", "mut", ("u64",), "u64")]}],
+         "traits": [{"name": "Aa", "methods": [M("run", "ref", ("u32",), "u32"), M("only", "ref", (), "u32"), M("fin", "own", (), "u32")]},
+                    {"name": "Bb", "methods": [M("run", "mut", ("u64",), "u64"), M("fin", "own", (), "u32")]}],
          "objects": [("Aa", "Box", "Arc"), ("Bb", "Box", "Arc")], "groups": [("Two", ["Aa", "Bb"], "Box", "")]},
     ]
     extra = []
